@@ -71,6 +71,7 @@ func (e *Engine) newExec(fn *ssa.Function, fc *FuncContract) *Exec {
 	x.topName = contractKey(fn)
 	if fc != nil {
 		x.noPanic = fc.NoPanic
+		x.checkLocks = fc.CheckLocks
 		if fc.MaxInline > 0 {
 			x.maxInline = fc.MaxInline
 		}
